@@ -414,6 +414,8 @@ Proof.
   - destruct (e_cmds (eh (gep s x)) =? 0); cbn [fst]; [exact H|]. intros z; destruct x, z; apply H.
   - cbn [fst]. intros z; destruct x, z; apply H.
   - destruct (per s =? 0); cbn [fst]; [exact H|]. intros z; destruct z; apply H.
+  - unfold sink_sync. destruct (live s x k); [|exact H]. destruct (_ <? _); cbn [fst]; [|exact H].
+    intros z; destruct x, z; apply H.
 Qed.
 
 Lemma run_invWB c : forall ts s, Inv s -> InvWB c s -> InvWB c (fst (run c s ts)).
